@@ -297,6 +297,7 @@ def _judge(lay, case, guard, failed, err, result, roots, exact, must_fail, why):
     if must_fail and not failed:
         raise Violation('%s succeeded although %s' % (describe(case), why), case, 'not-rejected')
     inside = [p for p, tok in lay.token.items() if tok in result and allowed(p)]
+    inside += [p for _m, p in guard.opened() if p in lay.content and p not in exact and allowed(p)]
     if failed:
         labels.append('rejected' if must_fail else 'failed_other')
         labels.append('err_' + type(err).__name__ if err is not None else 'err_returncode')
@@ -486,16 +487,21 @@ def require_cases(lay, maxseg):
 
 def _run_space(ctx, gen, maxseg):
     avoid = avoid_set(ctx)
-    n = 0
+    seen = set()
+    i = 0
     with Layout() as lay:
-        for i, case in enumerate(gen(lay, maxseg)):
+        for case in gen(lay, maxseg):
+            key = tuple(sorted(case.items()))
+            if key in seen:
+                continue
+            seen.add(key)
+            i += 1
             if i % ctx.nshards != ctx.shard:
                 continue
             execute(ctx, lay, case, avoid)
-            n += 1
         lay.verify()
     ctx.stats.extra['exhaustive'] = not avoid
-    ctx.stats.extra['enumerated_max_segments'] = maxseg
+    ctx.stats.extra['enumerated_max_segments'] = {maxseg}
 
 
 def part_include(ctx):
@@ -541,8 +547,8 @@ def part_random(ctx):
 
 def parts(tier):
     if tier == 'quick':
-        return [('include', part_include, 4), ('require', part_require, 8), ('random', part_random, 2)]
-    return [('include', part_include, 4), ('require', part_require, 12), ('random', part_random, 4)]
+        return [('include', part_include, 3), ('require', part_require, 11), ('random', part_random, 2)]
+    return [('include', part_include, 3), ('require', part_require, 11), ('random', part_random, 2)]
 
 
 def replay(case):
